@@ -228,6 +228,9 @@ class SingleMonitor:
         k = (oracle, shape)
         if k in self.flagged:
             return
+        if oracle in ("apply-prefix", "future-value") and ("agreement", shape) in self.flagged and shape != "no-known-precursor":
+            # consequence of a decision conflict already reported in this run under the same label
+            return
         self.flagged.add(k)
         self.res.add(oracle, COMP, shape, detail, {"trace": self.trace[-160:], **(extra or {})})
 
